@@ -126,8 +126,15 @@ PROPS["C09"] = dict(
 )
 
 PROPS["C04"] = dict(
-    inject=[("src/bigint.rs", "c04/canon.rs")],
-    kani=[dict(filter_q="c04_q_", filter_t=["c04_q_", "c04_t_"], jobs=14, timeout_q=240, timeout_t=900)],
+    # canonical-after-operation is asserted by the harnesses of the operations themselves (check_int / is_canonical on every result):
+    # the in-place mutators most relevant to C04 are re-run here from the files of C01, C07 and C19 (same queries, same names)
+    inject=[("src/bigint.rs", "c04/canon.rs"), ("src/bigint.rs", "c07/bit_queries.rs"), ("src/bigint/bits.rs", "c07/bigint_bits.rs"),
+            ("src/biguint/shift.rs", "c07/biguint_shift.rs"), ("src/bigint/shift.rs", "c07/bigint_shift.rs"),
+            ("src/biguint/subtraction.rs", "c01/biguint_subtraction.rs"), ("src/bigint.rs", "c19/bigint.rs")],
+    kani=[dict(filter_q=["c04_q_", "c07_q_iset_bit", "c07_q_uset_bit", "c07_q_and_as", "c07_q_or_as", "c07_q_xor_as", "c07_q_intshr", "c01_q_subassign", "c19_q_from_biguint"],
+               filter_t=["c04_q_", "c04_t_", "c07_q_iset_bit", "c07_t_iset_bit", "c07_q_uset_bit", "c07_t_uset_bit", "c07_q_and_", "c07_q_or_", "c07_q_xor_", "c07_q_intsh", "c07_t_intsh",
+                         "c01_q_subassign", "c01_t_subassign", "c19_q_from_biguint", "c19_q_unary"],
+               jobs=14, timeout_q=240, timeout_t=900)],
     functions=["PartialEq/Ord/PartialOrd/Hash for BigUint and BigInt (cmp_slice)", "normalize/normalized/biguint_from_vec", "IntDigits::normalize for BigInt",
                "Clone::clone_from"],
     bounds_quick="comparison/hash: canonical operands of 0..3 digits (all sign pairs for BigInt); normalisation: raw vectors of 0..6 digits with arbitrary trailing zeros and "
